@@ -659,23 +659,28 @@ func checkFilterAllOf(p *core.Program, r *core.Report, g *charGen, rule string) 
 		if val {
 			// after the full sweep (block dominated by the loop exit and outside the loop) or under an empty-list guard
 			afterSweep := !sweep.Blocks[ret.Block()] && ri.Exit.Dominates(ret.Block())
-			emptyGuard := false
+			// every edge into the block is the true edge of `required == nil` or `len(required) == 0`
+			emptyGuard := len(ret.Block().Preds) > 0
 			for _, pb := range ret.Block().Preds {
 				for si, s := range pb.Succs {
 					if s != ret.Block() {
 						continue
 					}
+					edgeOK := false
 					if gd, ok := core.EdgeCond(pb, si); ok {
-						if rel, ok := core.AsRel(gd); ok && rel.Op == token.EQL {
-							if core.IsNilConst(rel.Y) && rel.X == ssa.Value(req) {
-								emptyGuard = true
+						if rel, ok := core.AsRel(gd); ok {
+							if rel.Op == token.EQL && core.IsNilConst(rel.Y) && rel.X == ssa.Value(req) {
+								edgeOK = true
 							}
 							if x, isLen := core.LenOf(rel.X); isLen && x == ssa.Value(req) {
-								if k, isC := core.ConstInt(rel.Y); isC && k == 0 {
-									emptyGuard = true
+								if k, isC := core.ConstInt(rel.Y); isC && (rel.Op == token.EQL && k == 0 || rel.Op == token.LSS && k == 1 || rel.Op == token.LEQ && k == 0) {
+									edgeOK = true
 								}
 							}
 						}
+					}
+					if !edgeOK {
+						emptyGuard = false
 					}
 				}
 			}
@@ -697,7 +702,25 @@ func checkFilterAllOf(p *core.Program, r *core.Report, g *charGen, rule string) 
 					}
 				}
 			}
-			r.Check(inSweep && okCA, rule, name, "false is returned iff a (non-empty) required set has no character in the candidate", pos, "")
+			// no other condition: besides !ContainsAny only a non-emptiness test of the swept set (size > 0)
+			extra := ""
+			for _, gd := range core.Guards(ret.Block()) {
+				if !sweep.Blocks[gd.If.Block()] || gd.If.Block() == sweep.Header {
+					continue
+				}
+				if c, ok := gd.Cond.(*ssa.Call); ok && core.CallName(c) == "strings.ContainsAny" {
+					continue
+				}
+				if rel, ok := core.AsRel(gd); ok {
+					if _, isCall := rel.X.(*ssa.Call); isCall {
+						if k, isC := core.ConstInt(rel.Y); isC && (rel.Op == token.GTR && k == 0 || rel.Op == token.NEQ && k == 0 || rel.Op == token.GEQ && k == 1) {
+							continue
+						}
+					}
+				}
+				extra = "additional condition at " + p.InstrPos(gd.If)
+			}
+			r.Check(inSweep && okCA && extra == "", rule, name, "false is returned iff a (non-empty) required set has no character in the candidate", pos, extra)
 		}
 	}
 	// ContainsAny's second argument derives from the swept element
